@@ -26,6 +26,7 @@ BLOCKING = ('thread::sleep', 'JoinHandle::join', 'Receiver::recv', 'Receiver::re
 
 def market_fns(F):
     spliced = set(c for v in F.desugared.values() for c in v)   # closures that now live inside their caller (A12)
+    spliced |= set(F.unknown_functions)                           # helpers that were spliced into their callers
     return [b for b in F.bodies.values()
             if (b.path.startswith('job_market::') or b.path.startswith('<job_market::')) and b.path not in spliced]
 
@@ -406,9 +407,10 @@ def r9_empty_batch_is_shutdown_signal(ctx, F, rule='C05-R9'):
                   noref(sp.trace(sp.val(c.args[0]), ('DerefMut::deref_mut', 'Deref::deref'))))]
     if not pushes:
         raise AnchorMissing('split_and_push: push onto job_batches not found')
+    from taint import origins
     for pc in pushes:
-        bv = noref(sp.val(pc.args[1]))
-        guards_ = [c for c in sp.calls_to('VecDeque::is_empty') if noref(sp.val(c.args[0])) == bv]
+        bo = origins(sp, pc.args[1])
+        guards_ = [c for c in sp.calls_to('VecDeque::is_empty') if bo and origins(sp, c.args[0]) == bo]
         ok = False
         for g in guards_:
             fe = sp.branch(g, False)
